@@ -35,11 +35,12 @@ BOOL_VARS = ["b0", "b1"]
 
 
 class Gen:
-    def __init__(self, rng: random.Random, allow_unsafe=0.03, float_literals=(0.0, 1.0, 0.5, 1.5, 2.5), mixed=0.25):
+    def __init__(self, rng: random.Random, allow_unsafe=0.03, float_literals=(0.0, 1.0, 0.5, 1.5, 2.5), mixed=0.25, early_return=0.0):
         self.rng = rng
         self.allow_unsafe = allow_unsafe
         self.float_literals = float_literals
         self.mixed = mixed
+        self.early_return = early_return
         self.fresh = 0
         self.extra_int = []  # loop counters / temporaries in scope
         self.extra_float = []
@@ -108,10 +109,13 @@ class Gen:
         if c < 0.9:
             op = r.choice([A.And, A.Or])
             return op(self.bool_expr(d - 1), self.bool_expr(d - 1))
-        # short-circuit guard: the right operand is out of bounds when the left is false
+        # short-circuit guards: the right operand is out of bounds when the left operand decides
         i = V(r.choice(INT_VARS))
-        return A.And(A.And(A.LessThan(i, IL(N)), A.GreaterThanOrEqual(i, IL(0))),
-                     A.Equal(A.ArrayIndex(V("ia"), i), self.int_expr(d - 1)))
+        if r.random() < 0.5:
+            return A.And(A.And(A.LessThan(i, IL(N)), A.GreaterThanOrEqual(i, IL(0))),
+                         A.Equal(A.ArrayIndex(V("ia"), i), self.int_expr(d - 1)))
+        return A.Or(A.Or(A.GreaterThanOrEqual(i, IL(N)), A.LessThan(i, IL(0))),
+                    A.Equal(A.ArrayIndex(V("ia"), i), self.int_expr(d - 1)))
 
     def index_expr(self, length, d):
         r = self.rng
@@ -159,6 +163,9 @@ class Gen:
 
     def stmt(self, d, depth_e=3):
         r = self.rng
+        if self.early_return and r.random() < self.early_return:
+            # a return that is not the last statement of the function (inside loops/branches too)
+            return A.Return(self.int_expr(1))
         c = r.random()
         if d <= 0 or c < 0.45:
             return self.assign(depth_e)
